@@ -75,6 +75,8 @@ func runProg(prog Prog, prefix []int, bound int, final func(w *World, r *ExecRes
 	clock := 0
 	cfg := vrt.Config{Prefix: prefix, MaxTicks: 40 + prog.Ticks}
 	x := vrt.Run(cfg, func() {
+		// set-up and final phases run unscheduled: only the concurrent phase is explored
+		vrt.SetSequential(true)
 		w := NewWorld(prog.Cfg, "E2")
 		r.W = w
 		for _, op := range prog.Setup {
@@ -97,6 +99,7 @@ func runProg(prog Prog, prefix []int, bound int, final func(w *World, r *ExecRes
 			w.DB = sod.Open(w.Root)
 		}
 		r.Started = true
+		vrt.SetSequential(false)
 		ids := make([]int, nthreads)
 		for ti := 0; ti < nthreads; ti++ {
 			ti := ti
@@ -114,6 +117,7 @@ func runProg(prog Prog, prefix []int, bound int, final func(w *World, r *ExecRes
 		for _, id := range ids {
 			vrt.Join(id)
 		}
+		vrt.SetSequential(true)
 		if prog.Ticks > 0 {
 			vrt.Tick(prog.Ticks)
 		}
@@ -498,13 +502,39 @@ func modelStep(m *Model, slots []string, c Call, rec *CallRec) string {
 	return "?"
 }
 
-// linearizable searches a sequential order of hist (respecting real-time order)
-// whose results on the reference equal the observed ones and whose final state
-// equals finalWant (a function of the model). Returns the witness order or nil.
+// twoStep: user-level sequences of two API calls (evaluate a search, then use
+// it): the evaluation fixes the matched set (C20), the second call acts on it.
+func twoStep(name string) bool {
+	switch name {
+	case "sdel", "collect", "one":
+		return true
+	}
+	return false
+}
+
+type linStep struct {
+	call  int
+	final bool // last step of its call: the observed result is checked here
+	first bool
+}
+
+// linearizable searches a sequential order of the steps of hist (respecting
+// real-time order between calls and the order of the steps of one call) whose
+// results on the reference equal the observed ones and whose final state equals
+// finalObs. Returns the witness order or nil.
 func linearizable(base *Model, slots []string, hist []CallRec, finalObs string) ([]int, string) {
-	n := len(hist)
+	var steps []linStep
+	for i, h := range hist {
+		if twoStep(h.Call.Name) {
+			steps = append(steps, linStep{call: i, first: true}, linStep{call: i, final: true})
+		} else {
+			steps = append(steps, linStep{call: i, first: true, final: true})
+		}
+	}
+	n := len(steps)
 	used := make([]bool, n)
 	order := make([]int, 0, n)
+	matched := make([]map[string]bool, len(hist))
 	var lastTried string
 	var rec func(m *Model) bool
 	rec = func(m *Model) bool {
@@ -517,10 +547,14 @@ func linearizable(base *Model, slots []string, hist []CallRec, finalObs string) 
 			if used[i] {
 				continue
 			}
-			// real-time order: every unused call that responded before hist[i] was invoked must come first
+			st := steps[i]
 			ok := true
 			for j := 0; j < n; j++ {
-				if !used[j] && j != i && hist[j].Resp < hist[i].Inv {
+				if used[j] || j == i {
+					continue
+				}
+				// real-time order between calls; step order inside a call
+				if hist[steps[j].call].Resp < hist[st.call].Inv || (steps[j].call == st.call && j < i) {
 					ok = false
 					break
 				}
@@ -528,8 +562,21 @@ func linearizable(base *Model, slots []string, hist []CallRec, finalObs string) 
 			if !ok {
 				continue
 			}
+			h := &hist[st.call]
 			mc := m.Clone()
-			if modelStep(mc, slots, hist[i].Call, &hist[i]) != hist[i].Res {
+			var saved map[string]bool
+			good := true
+			switch {
+			case twoStep(h.Call.Name) && st.first && !st.final:
+				spec := specByPath(h.Call.Field)
+				saved = matched[st.call]
+				matched[st.call] = mc.search(spec, h.Call.Cmp, spec.probes()[h.Call.Probe])
+			case twoStep(h.Call.Name) && st.final:
+				good = twoStepFinal(mc, h, matched[st.call])
+			default:
+				good = modelStep(mc, slots, h.Call, h) == h.Res
+			}
+			if !good {
 				continue
 			}
 			used[i] = true
@@ -539,6 +586,9 @@ func linearizable(base *Model, slots []string, hist []CallRec, finalObs string) 
 			}
 			used[i] = false
 			order = order[:len(order)-1]
+			if saved != nil || (twoStep(h.Call.Name) && st.first && !st.final) {
+				matched[st.call] = saved
+			}
 		}
 		return false
 	}
@@ -546,4 +596,44 @@ func linearizable(base *Model, slots []string, hist []CallRec, finalObs string) 
 		return order, ""
 	}
 	return nil, lastTried
+}
+
+// twoStepFinal applies the second call of a two-call sequence on m given the
+// set matched at evaluation, and tells whether the observed result is explained.
+func twoStepFinal(m *Model, h *CallRec, set map[string]bool) bool {
+	missing := false
+	var alive []string
+	for u := range set {
+		if _, ok := m.Objs[u]; ok {
+			alive = append(alive, u)
+		} else {
+			missing = true
+		}
+	}
+	sort.Strings(alive)
+	switch h.Call.Name {
+	case "sdel":
+		for _, u := range alive {
+			delete(m.Objs, u)
+		}
+		// deleting an already deleted member is not an error for Delete (file absent, nothing indexed)
+		return h.Res == "ok"
+	case "collect":
+		if missing {
+			// a member deleted since the evaluation: an error, or the member omitted
+			return h.Res == "notfound" || h.Res == "ok:"+strings.Join(alive, ",")
+		}
+		return h.Res == "ok:"+strings.Join(alive, ",")
+	case "one":
+		if len(set) == 0 {
+			return h.Res == "notfound"
+		}
+		if h.Res == "notfound" {
+			return missing
+		}
+		u := strings.TrimPrefix(h.Res, "ok:")
+		_, still := m.Objs[u]
+		return set[u] && still
+	}
+	return false
 }
